@@ -130,7 +130,7 @@ func (g *mGen) item(depth int, inLoop bool) MItem {
 
 func (e mapiter) genPlan(r *core.PRNG) *MPlan {
 	p := &MPlan{Seed: r.Uint64(), KeyType: core.Pick(r, []string{"string", "string", "int32", "int32", "uint8", "float64", "bool"}),
-		ElemType: core.Pick(r, []string{"int", "int", "string", "float64", "bool", "slice", "struct"}), Universe: 2 + r.Intn(39), Driver: "host", OptimizeOff: r.Chance(1, 4)}
+		ElemType: core.Pick(r, []string{"int", "int", "string", "float64", "bool", "slice", "struct", "any", "any"}), Universe: 2 + r.Intn(39), Driver: "host", OptimizeOff: r.Chance(1, 4)}
 	if p.KeyType == "bool" {
 		p.Universe = 2
 	}
@@ -255,6 +255,15 @@ func (p *MPlan) elemValue(vid int) goatlang.Value {
 		return goatlang.Float64(float64(vid) + 0.5)
 	case "bool":
 		return goatlang.Bool(vid%2 == 1)
+	case "any":
+		// element type any: a third of the writes store nil (a live key whose value is nil)
+		switch vid % 3 {
+		case 0:
+			return goatlang.Nil()
+		case 1:
+			return goatlang.Int(vid)
+		}
+		return goatlang.String(fmt.Sprintf("v%d", vid))
 	}
 	return goatlang.NewSlice(goatlang.TypeInt32, []goatlang.Value{goatlang.Int(vid)})
 }
@@ -274,6 +283,14 @@ func (p *MPlan) elemLit(vid int) string {
 		return "false"
 	case "slice":
 		return fmt.Sprintf("[]int{%d}", vid)
+	case "any":
+		switch vid % 3 {
+		case 0:
+			return "nil"
+		case 1:
+			return fmt.Sprintf("int(%d)", vid)
+		}
+		return fmt.Sprintf("%q", fmt.Sprintf("v%d", vid))
 	}
 	return fmt.Sprintf("&T{A: %d}", vid)
 }
@@ -282,7 +299,7 @@ func (p *MPlan) types() (goatlang.Type, goatlang.Type, string, string) {
 	kt := map[string]goatlang.Type{"string": goatlang.TypeString, "int32": goatlang.TypeInt32, "uint8": goatlang.TypeUint8, "float64": goatlang.TypeFloat64, "bool": goatlang.TypeBool}[p.KeyType]
 	ks := map[string]string{"string": "string", "int32": "int", "uint8": "byte", "float64": "float64", "bool": "bool"}[p.KeyType]
 	et := map[string]goatlang.Type{"int": goatlang.TypeInt32, "string": goatlang.TypeString, "float64": goatlang.TypeFloat64, "bool": goatlang.TypeBool}[p.ElemType]
-	es := map[string]string{"int": "int", "string": "string", "float64": "float64", "bool": "bool", "slice": "[]int", "struct": "*T"}[p.ElemType]
+	es := map[string]string{"int": "int", "string": "string", "float64": "float64", "bool": "bool", "slice": "[]int", "struct": "*T", "any": "any"}[p.ElemType]
 	if p.ElemType == "slice" {
 		et = goatlang.TypeSlice | goatlang.TypeInt32<<8
 	}
@@ -317,6 +334,14 @@ func (p *MPlan) elemIs(v goatlang.Value, vid int) bool {
 		}
 		e, _ := v.Get(goatlang.Int(0))
 		return e.Int() == vid
+	case "any":
+		if vid == 0 || vid%3 == 0 {
+			return v.IsNil() // the zero value of any is nil, and so is every third written value
+		}
+		if vid%3 == 1 {
+			return v.Type() == goatlang.TypeInt32 && v.Int() == vid
+		}
+		return v.Type() == goatlang.TypeString && v.String() == fmt.Sprintf("v%d", vid)
 	case "struct":
 		if vid == 0 {
 			return structNil(v)
